@@ -44,6 +44,18 @@ def parseEvs (t : String) : Option (List Ev) :=
     | [p, st] => do pure ((← p.toNat?), (← parseState st))
     | _ => none
 
+/-- the predicate of `rmif` / `xif` / `xtake`: `done`, `chg`, `all`, `none`, `susp`, `run`, `alive`,
+    `unowned`, `m<bit mask over indices>`, `p<pid>` -/
+def parsePred (t : String) : Option RmPred :=
+  match t.toList with
+  | 'm' :: r => (String.ofList r).toNat?.map .mask
+  | 'p' :: r => (String.ofList r).toNat?.map .pid
+  | _ =>
+    if t = "done" then some .done else if t = "chg" then some .changedDone
+    else if t = "all" then some .all else if t = "none" then some .nothing
+    else if t = "susp" then some .suspended else if t = "run" then some .running
+    else if t = "alive" then some .alive else if t = "unowned" then some .unowned else none
+
 def parseOp (t : String) : Option Op :=
   match words t with
   | ["sync", evs] => do
@@ -82,6 +94,14 @@ def parseOp (t : String) : Option Op :=
   | ["exp", i, st] => do pure (.expect (← i.toNat?) (some (← parseState st)))
   | ["disown"] => some .disown
   | ["async", p] => do pure (.setAsync (← p.toNat?))
+  | ["rmif", p, r] => do pure (.removeIf (← parsePred p) (← parseBool r))
+  | ["xif", p, r] => do pure (.extractIf (← parsePred p) (← parseBool r))
+  | ["xtake", n, p, r] => do pure (.extractTake (← n.toNat?) (← parsePred p) (← parseBool r))
+  | ["add", p, st] => do pure (.addJob (← p.toNat?) (← parseState st))
+  | ["rep1", i] => do pure (.reportOne (← i.toNat?))
+  | ["ajs", p, r, i, name] => do
+    let o ← parseState r
+    if o = .running then none else pure (.ajs (← p.toNat?) o (← parseBool i) (parseName name))
   | _ => none
 
 def optNat : Option Nat → String
@@ -124,6 +144,10 @@ def opResult (s : JobList) : Op → String
   | .jobs args => showOut (jobsBuiltin s args).1
   | .bg m args => showOut (bgBuiltin s m args).1
   | .fg m i out args => showOut (fgBuiltin s m i out args).1
+  | .extractIf p r => ".".intercalate ((s.removeIf p.eval r).1.map toString)
+  | .extractTake n p r => ".".intercalate ((s.extractTake n p.eval r).1.map toString)
+  | .addJob pid st => toString (s.add { pid := pid, state := st }).1
+  | .ajs pid r i name => (let x := (addJobIfSuspended s pid r i name).1; s!"{if x.1 then "intr" else "cont"}:{x.2}")
   | .hjs pid r i name => (let x := (handleJobStatus s pid r i name).1; s!"{if x.1 then "intr" else "cont"}:{x.2}")
   | .jobsClosed args => showOut (jobsClosed s args).1
   | .ampFail => showOut (ampersandFail s).1
@@ -167,6 +191,8 @@ def pidsMentioned (ops : List Op) : List Nat :=
     | .insertJob p _ _ _ => some p
     | .amp p _ _ _ => some p
     | .hjs p _ _ _ => some p
+    | .addJob p _ => some p
+    | .ajs p _ _ _ => some p
     | _ => none).toList
   ps.eraseDups
 
